@@ -7,18 +7,18 @@ PROPS = {}
 
 PROPS["C13"] = {
     "explanation": "Bounded symbolic execution (gosx, own Go SSA executor + z3) of status.SetApprove/SetCompare/Read/write and missing-approve check/readFile on a virtual file system: all histories of K events over 9 event kinds with a strictly increasing symbolic 64-bit clock and symbolic code identities; after every event the listing is compared with a ghost 'latest conclusive observation'. Every assertion is an SMT query over all inputs of the path; counterexamples are replayed against the natively compiled code.",
-    "bounds": {"quick": "K=3 events, 9 event kinds, 3 code identities, v4 code only",
-               "thorough": "K=4 events with v4 code, K=3 with ipv6 and raw components present/absent"},
+    "bounds": {"quick": "K=4 events, 9 event kinds, 3 code identities (v4 code only); K=3 with ipv6 and raw components present/absent",
+               "thorough": "K=5 events (v4 code only); K=4 with ipv6 and raw components"},
     "outside": "histories longer than K; equal time stamps; valid JSON with forged values; more than 3 code identities; missing-approve.Main directory walk (check() is entered directly)",
     "selftest": None,
     "runs": [
         {"entry": M + "/cmd/missing-approve.VerifHistory",
-         "quick": {"K": "3"}, "thorough": {"K": "4"},
+         "quick": {"K": "4"}, "thorough": {"K": "5"},
          "covers": ["event: approve ok", "event: approve failed", "event: compare uptodate", "event: compare diff",
                     "event: bzip2 old policy", "event: remove old policy", "event: status damaged", "event: manual drift",
                     "event: new policy same code", "event: new policy other code"]},
         {"entry": M + "/cmd/missing-approve.VerifHistory",
-         "quick": {"K": "2", "parts": "1"}, "thorough": {"K": "3", "parts": "1"}},
+         "quick": {"K": "3", "parts": "1"}, "thorough": {"K": "4", "parts": "1"}},
     ],
 }
 
@@ -58,5 +58,19 @@ PROPS["C18"] = {
          "covers": ["APPEND entry merged", "Netspoc ACL without permit line", "raw part with [APPEND] section"]},
         {"entry": M + "/pkg/ios.VerifMergeACL", "quick": {"N": "3"}, "thorough": {"N": "4"},
          "covers": ["APPEND entry merged", "Netspoc ACL without permit line", "raw part with [APPEND] section"]},
+    ],
+}
+
+PROPS["C20"] = {
+    "explanation": "Bounded symbolic execution (gosx) of the real device.CompareFiles -> getRealDevice, loadSpoc, ParseConfig (cisco: lookupCmd, matchCmd, postprocessParsed, postprocessACLParts, checkReferences; linux: parseIPTables, parseRoutes), MergeSpoc and GetChanges on the repository's own test configurations in which one line is replaced by a solver-chosen member of the property's mutation family (word-prefix truncations, single-token deletions, duplications, swaps, indentation changes). Any Go run-time panic that is not errlog's bailout, and any exit status other than 0/1, is a violation; each is replayed natively.",
+    "bounds": {"quick": "ASA, IOS and Linux file-compare cases of go/testdata (files of at most 60 lines), every 12th (case, file, line) triple (offset = VERIF_SEED mod 12), up to 63 mutations per line, both argument positions (device file, Netspoc code, raw, ipv6)",
+               "thorough": "every (case, file, line) triple"},
+    "outside": "NSX (JSON) and PAN-OS (XML) inputs at byte level, info file and status file contents, do-approve and missing-approve front ends, hangs (step budget only), mutations of more than one line at a time",
+    "selftest": "asa_raw|ios_raw|linux_raw", "selftest_thorough": "asa_|ios_|linux",
+    "runs": [
+        {"entry": M + "/pkg/device.VerifMutateLine", "needs_cases": True,
+         "quick": {"stride": "12"}, "thorough": {"stride": "1"},
+         "extra": {"maxpaths": 2000000},
+         "covers": ["input rejected with exit status 1", "input accepted", "targets selected"]},
     ],
 }
